@@ -36,6 +36,16 @@ CHECKS = {
             "For every geometry, budget and config set (N<=7 quick / <=10 thorough) and every epoch-boundary checkpoint strictly before the budget, given in each of the three forms, the resumed real generator must produce exactly the suffix of the uninterrupted reference trace (set_epoch numbers, indices, side passes, stopping point); explicit constructor rejections are counted, not failed.",
             "Trusted: reference model; checkpoints off epoch boundaries are outside the stated domain.",
             "DESIGN.md section 5 C06"),
+    "C10": ("E1-choice", "exploration",
+            "stateless choice-point exploration: the collator's generator is replaced by ChoiceRng and every answer sequence within a deviation bound is executed on the real collator",
+            "All constructor combinations the constructor accepts (apply/lamb/shuffle modes x mixup-only/cutmix-only/both with two splits), batch sizes 1..4, several image shapes, one-hot and binary scalar labels, three modes, with/without context: every execution with <=2 (quick) / <=3 (thorough) non-default RNG answers (unit draws on both sides of each threshold, 4 beta values, every box centre, every permutation) is run; partner and weight are decoded independently from id-coded pixels and from the label rows and must agree with each other, with the shuffle mode and with the weight reported in the context. The MAE fine-tune collator is explored with the full product.",
+            "Trusted: the decoder in kdverif/props/c10.py; answers between alphabet points are not covered; deviation-bounded, not a full product, for B>=2.",
+            "DESIGN.md section 5 C10"),
+    "C11": ("E1-choice", "exploration",
+            "stateless choice-point exploration with a module shim (np.random.default_rng inside kd_mix_wrapper answers with ChoiceRng): full product of RNG answers",
+            "For datasets of 2..4 id-coded samples, 2..4 classes, equal and differing shapes (pad_or_cut_end), p in {0.3,1}, every index and six mode orders, the full product of the per-sample generator's answers (apply draw around the threshold, every partner, 4 weights) is executed on the real wrapper; the output must be explained by one (partner, weight) for image and label together, found by search over all partners; p=1 must mix; real seeded generators (seeds 0..7) check that image-only, label-only, joint and repeated requests describe one draw.",
+            "Trusted: the explanation search in kdverif/props/c11.py; cutmix raises NotImplementedError (outside the claim).",
+            "DESIGN.md section 5 C11"),
 }
 
 NOT_APPLICABLE = {
